@@ -2,7 +2,7 @@
 C14 - probed system description and derived machine model match the machine.
 Property theorems; long proofs live in RigModel/Lemmas/C14.lean.
 -/
-import RigModel.Lemmas.C14g
+import RigModel.Lemmas.C14n
 set_option linter.unusedSimpArgs false
 set_option linter.unusedVariables false
 
@@ -37,10 +37,12 @@ example : ({ cores := 18, states := List.replicate 18 15, links := [0, 1, 2, 3, 
 /-- **P2P table.** For every table `f` of 3-bit entries and all dimensions up to 255 x 255, reading
 the table memory laid out by the machine specification (column `x` in the 32 words from
 `SPINNAKER_RTR_P2P + 128 x`, row `y` in word `y / 8` at bits `3 (y mod 8)`) yields exactly the entry
-`f x y` for every `x < w`, `y < h`, column by column, and nothing else. -/
+`f x y` for every `x < w`, `y < h`, column by column, and nothing else.  Only reads inside the table
+region (`P2P_REGION` = 256 columns x 128 bytes from `SPINNAKER_RTR_P2P`) are constrained. -/
 theorem p2p_roundtrip (f : Nat → Nat → Nat) (hf : ∀ x y, f x y < 8) (rd : Rd) (w h : Nat)
     (hw : w ≤ 255) (hh : h ≤ 255)
-    (hrd : ∀ a n, SPINNAKER_RTR_P2P ≤ a → rd a n = readMem (p2pMem f) a n) :
+    (hrd : ∀ a n, SPINNAKER_RTR_P2P ≤ a → a + n ≤ SPINNAKER_RTR_P2P + P2P_REGION →
+      rd a n = readMem (p2pMem f) a n) :
     p2pTableOfDims rd (w * 256 + h) = .ok (p2pSpecTable f (List.range w) h) :=
   p2p_roundtrip_dims_lem f hf rd w h hw hh hrd
 
@@ -182,13 +184,46 @@ example : ∃ rd : Rd, ChainIn rd 4 [⟨100, 1, 2, 3, [65, 66, 67, 68]⟩, ⟨20
                     else blockBytes ⟨200, 0, 0, 9, [69, 70, 71, 72]⟩ 0, ?_, by decide⟩
   simp [ChainIn, chainNext]
 
-/- **Status block** - full statement (NOT proved, validated by correspondence and the `core_ok` oracle):
-     theorem status_block (s : Status) (swTop : Nat) (name16 pad : List Nat) (h : all fields within their
-       widths, cpu_state / rt_code valid codes, strip0 name16 = s.appName ASCII, |name16| = |pad| = 16) :
-       decodeStatus (statusBytes s swTop name16 pad) = .ok s
-   What is proved is the layout half: every field of the vcpu struct (table regenerated from
-   sark.struct) is unpacked from its documented position of the 128-byte block.  Missing: the
-   renaming / enum conversion / version split that follows (straight-line code over this list). -/
+/-- **Status block (full).** Decoding the 128-byte vcpu block that the machine specification lays out
+for a status record `s` (registers r0-r7, psr, sp, lr, rt_code, phys_cpu, cpu_state, app_id, the mailbox
+fields, sw_count / sw_file / sw_line, time, the NUL-padded 16-byte name, iobuf, sw_ver = patch | minor << 8
+| major << 16 | swTop << 24, 16 padding bytes, user0-3) returns exactly `s`: every field under its
+`ProcessorStatus` name (iobuf -> iobuf_address, psr -> program_state_register, ...), registers and user
+variables collected in order, the name stripped of NULs, cpu_state / rt_code accepted as enumeration
+members, the version split into (major, minor, patch); the top byte of sw_ver and the padding are ignored.
+For all field values over their full widths. -/
+theorem status_block (s : Status) (swTop : Nat) (name16 pad : List Nat) (hwf : s.WF)
+    (hn : name16.length = 16) (hp : pad.length = 16) (hname : strip0 name16 = s.appName)
+    (hascii : ∀ b ∈ s.appName, b < 128) :
+    decodeStatus (statusBytes s swTop name16 pad) = .ok s :=
+  status_block_lem s swTop name16 pad hwf hn hp hname hascii
+
+/-- `get_processor_status` end to end: the block is read from `sv.vcpu_base + 128 p` -/
+theorem processor_status_exact (rd : Rd) (vbase p : Nat) (s : Status) (swTop : Nat) (name16 pad : List Nat)
+    (hvb : vbase < 4294967296)
+    (h1 : rd (SV_BASE + SV_VCPU_BASE_OFF) SV_VCPU_BASE_SIZE = le32 vbase)
+    (h2 : rd (vbase + VCPU_SIZE * p) VCPU_SIZE = statusBytes s swTop name16 pad)
+    (hwf : s.WF) (hn : name16.length = 16) (hp : pad.length = 16) (hname : strip0 name16 = s.appName)
+    (hascii : ∀ b ∈ s.appName, b < 128) :
+    processorStatus rd p = .ok s :=
+  processorStatus_spec rd vbase p s swTop name16 pad hvb h1 h2 hwf hn hp hname hascii
+
+/-- non-vacuity: a status record with every numeric field at its maximum and the name "ab" -/
+def exStatus : Status :=
+  { registers := List.replicate 8 4294967295, psr := 4294967295, sp := 4294967295, lr := 4294967295, rtCode := 20,
+    physCpu := 255, cpuState := 7, mboxApMsg := 4294967295, mboxMpMsg := 4294967295, mboxApCmd := 255,
+    mboxMpCmd := 255, swCount := 65535, swFile := 4294967295, swLine := 4294967295, time := 4294967295,
+    appName := [97, 98], iobuf := 4294967295, appId := 255, version := (255, 255, 255),
+    userVars := List.replicate 4 4294967295 }
+
+example : exStatus.WF ∧ strip0 (97 :: 98 :: List.replicate 14 0) = exStatus.appName ∧
+    (∀ b ∈ exStatus.appName, b < 128) ∧
+    (statusBytes exStatus 255 (97 :: 98 :: List.replicate 14 0) (List.replicate 16 255)).length = 128 := by
+  refine ⟨?_, by decide, by decide, by rfl⟩
+  unfold Status.WF
+  refine ⟨by decide, by decide, by decide, by decide, by decide, by decide, by decide, by decide, by decide,
+    by decide, by decide, by decide, by decide, by decide, by decide, by decide, by decide, by decide, by decide⟩
+
 /-- **Status block, layout half.** Unpacking the 128-byte vcpu block that the machine specification
 lays out yields, for every field of the (regenerated) vcpu struct table, the little-endian value of
 exactly that field's bytes. -/
@@ -268,7 +303,201 @@ example : Digits [50] ∧ Digits [49] ∧ Digits [48] ∧ Ascii [45, 100, 101, 1
     (∀ c ∈ ([45, 100, 101, 118] : List Nat).head?, isDigit c = false) ∧ digitsVal [49, 50, 51] = 123 := by
   refine ⟨⟨by decide, by decide⟩, ⟨by decide, by decide⟩, ⟨by decide, by decide⟩, by unfold Ascii; decide, by decide, by decide⟩
 
-/-- non-vacuity of the hypotheses of the last four theorems: a two-chip description -/
+/-! ## end-to-end composition: machine state -> probe -> description -> machine model / reservations -/
+
+/-- **The keys of the P2P table are distinct**: the table the code reads from the specification's memory
+lists every coordinate inside the dimensions exactly once (so the `dict` the code builds loses nothing). -/
+theorem p2p_keys_nodup (f : Nat → Nat → Nat) (w h : Nat) : ((p2pSpecTable f (List.range w) h).map (·.1)).Nodup :=
+  p2pSpecTable_nodup f w h
+
+/-- **`get_system_info` on a machine state (exact value).** If the memory serves the dimension register
+and the P2P table of machine state `m` (`m.Serves rd`: dimensions <= 255, 3-bit entries, well-formed chip
+states, only the 2 + 32768 bytes concerned are constrained) and at least one chip is listed, then
+`get_system_info` - reading the table and sending `info` to every listed chip, chips absent from `m.chips`
+not answering - returns exactly `m.sysInfo`: the listed chips that answer, in table order, each with the
+view of its state; and that description is well formed (distinct keys inside width x height). -/
+theorem get_system_info_exact (m : MachineState) (rd : Rd) (hs : m.Serves rd) (hl : ∃ xy, m.listed xy = true) :
+    getSystemInfo rd m.probe = .ok m.sysInfo ∧ m.sysInfo.WF ∧
+    (∀ xy ci, (xy, ci) ∈ m.sysInfo.chips ↔
+      ∃ st, m.listed xy = true ∧ m.chips.lookup xy = some st ∧ ci = chipView st) :=
+  ⟨getSystemInfo_spec m rd hs hl, sysInfo_WF m hl, mem_sysInfo m⟩
+
+/-- **Probe to machine (exact).** Under the same hypotheses, the description `si` that `get_system_info`
+returns is well formed, and the `Machine` built from it by `build_machine` together with the reservations
+of `build_core_constraints` describe exactly the machine: (extent) width / height bound every listed chip
+and are attained; (chips) a chip is in the machine iff it is listed in the P2P table and answers; (links) a
+link 0..5 is in the machine iff its chip is and the chip's state has the link working; (quantities) every
+such chip has exactly its state's core count and largest free SDRAM / SRAM block; (reservations) on every
+such chip each core number `p` is covered by exactly one reservation applying to the chip if `p` is a
+working core that is not idle (`busyCore`) and by none otherwise; reservations name only such chips. -/
+theorem probe_to_machine_exact (m : MachineState) (rd : Rd) (hs : m.Serves rd) (hl : ∃ xy, m.listed xy = true) :
+    ∃ si, getSystemInfo rd m.probe = .ok si ∧ si.WF ∧
+      (buildMachine si).width = si.width ∧ (buildMachine si).height = si.height ∧
+      (∀ xy, m.listed xy = true → xy.1 < si.width ∧ xy.2 < si.height) ∧
+      (∃ xy, m.listed xy = true ∧ xy.1 + 1 = si.width) ∧ (∃ xy, m.listed xy = true ∧ xy.2 + 1 = si.height) ∧
+      (∀ x y, (buildMachine si).chipOk (x, y) = true ↔
+        m.listed (x, y) = true ∧ (m.chips.lookup (x, y)).isSome = true) ∧
+      (∀ x y l, l < 6 → ((buildMachine si).linkOk x y l = true ↔
+        ∃ st, m.listed (x, y) = true ∧ m.chips.lookup (x, y) = some st ∧ l ∈ st.links)) ∧
+      (∀ xy st, m.listed xy = true → m.chips.lookup xy = some st →
+        (buildMachine si).resources xy = (st.cores, st.sdram, st.sram) ∧
+        ∀ p, coverCount (coreConstraints si) xy p = if st.busyCore p = true then 1 else 0) ∧
+      (∀ r ∈ coreConstraints si, ∀ c, r.chip = some c →
+        m.listed c = true ∧ (m.chips.lookup c).isSome = true) :=
+  ⟨m.sysInfo, getSystemInfo_spec m rd hs hl, machineExact_sysInfo m hs.chipsWF hl⟩
+
+/-! ## `SystemInfo.__contains__`, `links()`, `cores()`, `build_routing_table_target_lengths` -/
+
+/-- **`__contains__`.** For a description with distinct keys: `(x, y) in si` iff the chip has a record;
+`(x, y, link) in si` iff it has a record whose working links contain the link; `(x, y, p) in si` iff it has a
+record with more than `p` cores; `(x, y, p, state) in si` is true iff additionally the record's `p`-th state
+is `state`, and it cannot raise when every record has a state per core. -/
+theorem contains_exact (si : SysInfo) (hnd : (si.chips.map (·.1)).Nodup) :
+    (∀ xy, si.has xy = true ↔ ∃ ci, (xy, ci) ∈ si.chips) ∧
+    (∀ x y l, si.hasLink x y l = true ↔ ∃ ci, ((x, y), ci) ∈ si.chips ∧ l ∈ ci.links) ∧
+    (∀ x y p, si.hasCore x y p = true ↔ ∃ ci, ((x, y), ci) ∈ si.chips ∧ p < ci.numCores) ∧
+    (∀ x y p s, si.hasCoreState x y p s = .ok true ↔
+      ∃ ci, ((x, y), ci) ∈ si.chips ∧ p < ci.numCores ∧ ci.coreStates[p]? = some s) ∧
+    ((∀ xy ci, (xy, ci) ∈ si.chips → ci.numCores ≤ ci.coreStates.length) →
+      ∀ x y p s, ∃ b, si.hasCoreState x y p s = .ok b) :=
+  ⟨has_iff si, hasLink_iff si hnd, hasCore_iff si hnd, hasCoreState_iff si hnd, hasCoreState_total si⟩
+
+/-- **`links()` and `cores()`** enumerate exactly the working links of the records and exactly the
+(core number, state) pairs of the records' state lists. -/
+theorem links_cores_enumerate (si : SysInfo) :
+    (∀ x y l, (x, y, l) ∈ si.liveLinks ↔ ∃ ci, ((x, y), ci) ∈ si.chips ∧ l ∈ ci.links) ∧
+    (∀ x y p s, (x, y, p, s) ∈ si.cores ↔ ∃ ci, ((x, y), ci) ∈ si.chips ∧ ci.coreStates[p]? = some s) :=
+  ⟨mem_liveLinks si, mem_cores si⟩
+
+/-- **`links()` / `cores()` yield nothing twice**: with distinct keys, every (core, state) is yielded once, and
+every working link once when each record's link collection has no repetition (it is a `set` in the code; the
+decoded view lists 0..5 filtered) - in particular on the description returned by probing a machine state. -/
+theorem links_cores_once (si : SysInfo) (hnd : (si.chips.map (·.1)).Nodup) :
+    ((∀ xy ci, (xy, ci) ∈ si.chips → ci.links.Nodup) → si.liveLinks.Nodup) ∧ si.cores.Nodup ∧
+    (∀ st : ChipState, (chipView st).links.Nodup) :=
+  ⟨liveLinks_nodup si hnd, cores_nodup si hnd, chipView_links_nodup⟩
+
+/-- **`build_routing_table_target_lengths`** has exactly the description's keys (in order) and maps each
+chip to the probed largest free block of router entries. -/
+theorem target_lengths_exact (si : SysInfo) :
+    (targetLengths si).map (·.1) = si.chips.map (·.1) ∧
+    (∀ xy n, (xy, n) ∈ targetLengths si ↔ ∃ ci, (xy, ci) ∈ si.chips ∧ n = ci.rtr) ∧
+    ((si.chips.map (·.1)).Nodup → ∀ xy n, (targetLengths si).lookup xy = some n ↔
+      ∃ ci, (xy, ci) ∈ si.chips ∧ n = ci.rtr) :=
+  ⟨targetLengths_keys si, mem_targetLengths si, fun hnd => targetLengths_lookup si hnd⟩
+
+/-- **Probe to views (exact).** On the description returned by probing machine state `m`: membership
+tests, `links()`, `cores()` and the routing-table target lengths report exactly the listed chips that
+answer, their working links 0..5, their working cores with the state of each, and each chip's largest free
+router block; the state membership test never raises. -/
+theorem probe_views_exact (m : MachineState) (rd : Rd) (hs : m.Serves rd) (hl : ∃ xy, m.listed xy = true) :
+    ∃ si, getSystemInfo rd m.probe = .ok si ∧
+      (∀ xy, si.has xy = true ↔ m.listed xy = true ∧ (m.chips.lookup xy).isSome = true) ∧
+      (∀ x y l, si.hasLink x y l = true ↔
+        ∃ st, m.listed (x, y) = true ∧ m.chips.lookup (x, y) = some st ∧ l < 6 ∧ l ∈ st.links) ∧
+      (∀ x y p, si.hasCore x y p = true ↔
+        ∃ st, m.listed (x, y) = true ∧ m.chips.lookup (x, y) = some st ∧ p < st.cores) ∧
+      (∀ x y p s, (∃ b, si.hasCoreState x y p s = .ok b) ∧ (si.hasCoreState x y p s = .ok true ↔
+        ∃ st, m.listed (x, y) = true ∧ m.chips.lookup (x, y) = some st ∧ p < st.cores ∧
+          st.states[p]? = some s)) ∧
+      (∀ x y l, (x, y, l) ∈ si.liveLinks ↔
+        ∃ st, m.listed (x, y) = true ∧ m.chips.lookup (x, y) = some st ∧ l < 6 ∧ l ∈ st.links) ∧
+      (∀ x y p s, (x, y, p, s) ∈ si.cores ↔
+        ∃ st, m.listed (x, y) = true ∧ m.chips.lookup (x, y) = some st ∧ p < st.cores ∧
+          st.states[p]? = some s) ∧
+      (∀ xy n, (targetLengths si).lookup xy = some n ↔
+        ∃ st, m.listed xy = true ∧ m.chips.lookup xy = some st ∧ n = st.rtr) :=
+  ⟨m.sysInfo, getSystemInfo_spec m rd hs hl, viewsExact_sysInfo m hs.chipsWF hl⟩
+
+/-- non-vacuity of `Serves` and of "a chip is listed": a 2 x 1 machine whose second chip does not answer,
+served by a memory holding only the dimension register and the table -/
+def exChip : ChipState :=
+  { cores := 18, states := 7 :: 5 :: List.replicate 16 15, links := [0, 1, 5], sdram := 4294967295,
+    sram := 4294967295, rtr := 2047, ethUp := true, ip0 := 255, ip1 := 255, ip2 := 255, ip3 := 255,
+    ethX := 255, ethY := 255 }
+
+def exMachine : MachineState :=
+  { dimW := 2, dimH := 1, p2p := [((0, 0), 0), ((1, 0), 2)], chips := [((0, 0), exChip)] }
+
+def exRd : Rd := fun a n =>
+  if a = SV_BASE + SV_P2P_DIMS_OFF then le16 (2 * 256 + 1) else readMem (p2pMem exMachine.entry) a n
+
+example : exMachine.Serves exRd ∧ (∃ xy, exMachine.listed xy = true) ∧
+    exMachine.sysInfo.chips.map (·.1) = [(0, 0)] ∧ exMachine.sysInfo.width = 2 ∧
+    exChip.busyCore 1 = true ∧ exChip.busyCore 2 = false := by
+  refine ⟨⟨by decide, by decide, by decide, ?_, ?_, ?_⟩, ⟨(0, 0), by decide⟩, by decide, by decide, by decide,
+    by decide⟩
+  · intro xy st h
+    have hm := lookup_mem_snd _ _ _ h
+    simp only [exMachine, List.mem_cons, Prod.mk.injEq, List.mem_nil_iff, or_false] at hm
+    rw [hm.2]
+    refine ⟨by decide, by decide, ?_, by decide, by decide, by decide, by decide, by decide, by decide, by decide,
+      by decide, by decide⟩
+    intro s hs
+    simp only [exChip, List.mem_cons, List.mem_replicate] at hs
+    rcases hs with rfl | rfl | ⟨_, rfl⟩ <;> decide
+  · simp only [exRd, if_true]
+    rfl
+  · intro a n h1 h2
+    have : a ≠ SV_BASE + SV_P2P_DIMS_OFF := by
+      simp only [SPINNAKER_RTR_P2P, P2P_REGION, SV_BASE, SV_P2P_DIMS_OFF] at *
+      omega
+    simp only [exRd, this, if_false]
+
+/-! ## the oracles the harness evaluates on the implementation's outputs -/
+
+/-- **`sysinfo_ok` is exact.** The predicate the harness evaluates on the `SystemInfo` returned by the real
+`get_system_info` (a) accepts only descriptions that are exact up to record order: extent = one more than
+the largest listed coordinates, distinct keys, and the records are precisely the listed chips that answer,
+each with the view of its state; (b) accepts what the model of `get_system_info` returns. -/
+theorem sysinfo_oracle_exact (m : MachineState) :
+    (∀ si, sysinfoOk m si = true →
+      si.width = maxList ((listedCoords m).map (·.1)) + 1 ∧
+      si.height = maxList ((listedCoords m).map (·.2)) + 1 ∧
+      (si.chips.map (·.1)).Nodup ∧
+      (∀ xy ci, (xy, ci) ∈ si.chips ↔
+        ∃ st, m.listed xy = true ∧ m.chips.lookup xy = some st ∧ ci = chipView st)) ∧
+    ((∃ xy, m.listed xy = true) → sysinfoOk m m.sysInfo = true) ∧
+    (∀ xy, xy ∈ listedCoords m ↔ m.listed xy = true) :=
+  ⟨sysinfoOk_complete m, sysinfoOk_sound m, mem_listedCoords m⟩
+
+/-- **`reservations_ok` is exact.** For descriptions with at most 18 core slots per chip, the finite check
+the harness runs on the constraints returned by the real `build_core_constraints` holds iff reservations
+name only described chips and on every described chip EVERY core number is covered exactly once when busy
+and never otherwise; and it accepts the model's constraints. -/
+theorem reservations_oracle_exact (si : SysInfo)
+    (h18 : ∀ xy ci, (xy, ci) ∈ si.chips → ci.coreStates.length ≤ 18) :
+    (∀ rs, reservationsOk si rs = true ↔
+      (∀ r ∈ rs, ∀ c, r.chip = some c → si.has c = true) ∧
+      (∀ xy ci, (xy, ci) ∈ si.chips → ∀ p, coverCount rs xy p = if busy ci p = true then 1 else 0)) ∧
+    ((si.chips.map (·.1)).Nodup → reservationsOk si (coreConstraints si) = true) :=
+  ⟨fun rs => reservationsOk_iff si rs h18, fun hnd => reservationsOk_sound si hnd h18⟩
+
+/-- **`dead_ok` is exact.** For a description with distinct keys, the predicate evaluated on the collections
+returned by the real `dead_chips()` / `dead_links()` holds iff they are, as sets, the model's dead chips and
+dead links (characterised by `dead_chips_complement` / `dead_links_complement`). -/
+theorem dead_oracle_exact (si : SysInfo) (hnd : (si.chips.map (·.1)).Nodup) (dc : List (Nat × Nat))
+    (dl : List (Nat × Nat × Nat)) :
+    deadOk si dc dl = true ↔
+      (∀ x y, (x, y) ∈ dc ↔ (x, y) ∈ si.deadChips) ∧ (∀ x y l, (x, y, l) ∈ dl ↔ (x, y, l) ∈ si.deadLinks) :=
+  deadOk_iff si hnd dc dl
+
+/-- **`machine_ok` is exact.** The predicate evaluated on the `Machine` returned by the real `build_machine`
+holds iff the machine has the description's extent, inside it exactly the described chips are alive, and
+every described chip is present with exactly its working links 0..5 and exactly its probed core count / SDRAM
+/ SRAM; and it accepts the model's machine for every well-formed description. -/
+theorem machine_oracle_exact (si : SysInfo) :
+    (∀ m, machineOk si m = true ↔
+      m.width = si.width ∧ m.height = si.height ∧
+      (∀ x y, x < m.width → y < m.height → ((x, y) ∉ m.deadChips ↔ ∃ ci, ((x, y), ci) ∈ si.chips)) ∧
+      (∀ xy ci, (xy, ci) ∈ si.chips → m.chipOk xy = true ∧
+        (∀ l, l < 6 → (m.linkOk xy.1 xy.2 l = true ↔ l ∈ ci.links)) ∧
+        m.resources xy = (ci.numCores, ci.sdram, ci.sram))) ∧
+    (si.WF → machineOk si (buildMachine si) = true) :=
+  ⟨machineOk_iff si, machineOk_sound si⟩
+
+/-- non-vacuity of the hypotheses of `build_machine_exact` / `reservations_partition` / `contains_exact`: a
+two-chip description -/
 def exSys : SysInfo :=
   { width := 2, height := 1,
     chips := [((0, 0), { numCores := 18, coreStates := 7 :: 7 :: List.replicate 16 15, links := [0, 2], sdram := 10,
